@@ -527,7 +527,7 @@ fn resolve_regions(
             }
 
             self.regions.push(region);
-            self.last_address += size;
+            self.last_address = self.last_address.checked_add(size)?;
             Some(())
         }
     }
